@@ -86,6 +86,10 @@ def inst_ints(kind):
         elif kind == "dict":
             spec = {0: c0}
             eff = (c0, None)
+        elif kind == "dict-negative-axis":
+            # axes may be counted from the end, as everywhere else: {-2: c} on a 2-d shape is axis 0
+            spec = {-2: c0}
+            eff = (c0, None)
         elif kind == "neg1":
             spec = (c0, -1)
             eff = (c0, None)
@@ -131,7 +135,7 @@ def inst_ints(kind):
         if n0 * n1 > 10 ** 6:
             return dict(ok=False, detail="too large for an API replay; unit-level replay stands")
         c0, c1 = values.get("c0"), values.get("c1")
-        spec = dict(scalar=c0, tuple=(c0, c1), dict={0: c0}, neg1=(c0, -1), none=(None, c0),
+        spec = {"dict-negative-axis": {-2: c0}}.get(kind) or dict(scalar=c0, tuple=(c0, c1), dict={0: c0}, neg1=(c0, -1), none=(None, c0),
                     mixed=(c0, (values.get("a"), values.get("b"))))[kind]
         try:
             x = da.from_array(np.zeros((n0, n1), dtype="u1"), chunks=spec)
@@ -140,6 +144,9 @@ def inst_ints(kind):
             return dict(ok=True, detail=f"API refuses: {type(e).__name__}: {e}")
         ok = (got.shape == (n0, n1) and x.shape == (n0, n1) and all(sum(c) == s for c, s in zip(x.chunks, (n0, n1)))
               and all(v >= 0 for c in x.chunks for v in c))
+        if kind in ("dict", "dict-negative-axis") and n0 > 0:
+            # an explicit uniform size c yields blocks of size c except possibly a smaller last block
+            ok = ok and all(b == c0 for b in x.chunks[0][:-1]) and 0 < x.chunks[0][-1] <= c0
         return dict(ok=ok, detail=f"da.from_array(np.zeros({(n0, n1)}), chunks={spec}) -> shape {x.shape} chunks {x.chunks} computed {got.shape}")
 
     return Instance(f"normalize_chunks[{kind}]", body, dict(spec=kind), unit="normalize_chunks", api_replay=api, cost=3)
@@ -331,7 +338,7 @@ def inst_prev(itemsize, nmax, limmax, mprev):
 
 def instances(tier):
     q = tier == "quick"
-    out = [inst_ints(k) for k in ("scalar", "tuple", "dict", "neg1", "none", "mixed")]
+    out = [inst_ints(k) for k in ("scalar", "tuple", "dict", "dict-negative-axis", "neg1", "none", "mixed")]
     out += [inst_explicit(1, 1), inst_explicit(2, 1), inst_explicit(2, 3), inst_explicit_fractional(), inst_auto_empty(-1), inst_auto_empty((0,))]
     for cfix in (1, 2, 3) if not q else (1, 3):
         for itemsize in (1, 8):
